@@ -391,7 +391,7 @@ def select(c: E, a: E, b: E) -> E:
         x, y = c.args
         if (x is a and y is b) or (x is b and y is a):
             takes_smaller = (c.op in ('lt', 'le')) == (x is a)
-            return _mk('imin' if takes_smaller else 'imax', (a, b) if a.id < b.id else (b, a), a.ty) if not (a.is_const and b.is_const) else const(a.ty, min(a.val, b.val) if takes_smaller else max(a.val, b.val))
+            return _mk('imin' if takes_smaller else 'imax', (b, a) if (a.is_const and not b.is_const) else (a, b), a.ty) if not (a.is_const and b.is_const) else const(a.ty, min(a.val, b.val) if takes_smaller else max(a.val, b.val))
     return _mk('select', (c, a, b), a.ty)
 
 def node(op, args, ty):
